@@ -280,13 +280,18 @@ impl StorageEngine {
             }
         }
 
-        // Check if knowledge graph exists
-        if !self.knowledge_graphs.contains_key(name) {
-            return Err(StorageError::KnowledgeGraphNotFound(name.to_string()));
+        // Check that the knowledge graph exists and add it to the tombstone set in one step,
+        // BEFORE removing it from the DashMap (ordering matters for RC-2). A drop that finds the
+        // name already marked loses: two concurrent drops of the same graph used to both pass the
+        // existence check, the first one to finish cleared the shared tombstone, the name could be
+        // re-created, and the slower drop's clean-up then deleted the new graph's files.
+        {
+            let mut dropping = self.dropping_kgs.write();
+            if dropping.contains(name) || !self.knowledge_graphs.contains_key(name) {
+                return Err(StorageError::KnowledgeGraphNotFound(name.to_string()));
+            }
+            dropping.insert(name.to_string());
         }
-
-        // Add to tombstone BEFORE removing from DashMap (ordering matters for RC-2)
-        self.dropping_kgs.write().insert(name.to_string());
 
         // Remove from in-memory DashMap (instant)
         self.knowledge_graphs.remove(name);
